@@ -3,16 +3,15 @@ from lib import core, propgen
 from harness.oracles import all as ALL
 
 ID = 'C06'
-UNITS = ['event_metrics', 'transcription_scores', 'multipitch_metrics', 'seg_cluster_q', 'hier_measures', 'pattern_scores']
+UNITS = ['event_metrics', 'transcription_scores', 'multipitch_metrics', 'seg_cluster_q', 'hier_measures', 'pattern_scores', 'seg_entropy_num']
 TRANSLATORS = []
-NOT_COVERED = 'AMI symmetry is covered by the oracle only (the expected-MI term is not modelled); V-measure, NMI, the NCE triple, L-measure and chord over-/under-segmentation swaps are theorems.'
+NOT_COVERED = 'all listed swaps are theorems, including AMI (Reals formula of the expected mutual information, tied numerically inside Coq by seg_entropy_num).'
 ASSUMPTIONS = ['exact-arithmetic lattices for the correspondence (DESIGN.md section 2.1); NumPy/SciPy primitives as modelled per module']
 
 oracle_search = propgen.budgeted([ALL.for_property(ID)])
 
 
-def oracle_at(unit, case, impl):
-    return None
+oracle_at = propgen.point_oracle(ID)      # the property's point checks at and around the mismatching input (harness/oracles/at_point.py)
 
 
 def diagnose(b):
